@@ -1612,10 +1612,12 @@ def r04_15(ctx):
         n += 1
         bad = None
         for cond, truth, si in bool_guards(ctx, b, bi):
+            # the comparison as the compiler typed it: an ordering test of floats in the guarding block
+            fcmp = any(st['k'] == 'assign' and st['rv'].get('k') == 'binop' and st['rv'].get('op') in ('Lt', 'Le', 'Gt', 'Ge') and st['rv'].get('ty') in ('f32', 'f64') for st in b.blocks[si]['st'])
             for x in subterms(cond):
                 if x[0] == 'bin' and x[1] in ('Lt', 'Le', 'Gt', 'Ge'):
-                    leaves_style = all(strip_all(y)[0] == 'const' or (field_path(strip_all(y))[0] in (('param', 2), ('deref', ('param', 2))) ) for y in (x[2], x[3]))
-                    isfloat = any(z[0] == 'const' and z[1] in ('f32', 'f64') for z in subterms(x)) or any(z[0] == 'call' and isinstance(z[1], str) and ('dot' in z[1] or 'cross' in z[1] or 'f32' in z[1]) for z in subterms(x))
+                    leaves_style = all(strip_all(y)[0] in ('const', 'cnamed') or (field_path(strip_all(y))[0] in (('param', 2), ('deref', ('param', 2))) ) for y in (x[2], x[3]))
+                    isfloat = fcmp or any(z[0] == 'const' and z[1] in ('f32', 'f64') for z in subterms(x)) or any(z[0] == 'call' and isinstance(z[1], str) and ('dot' in z[1] or 'cross' in z[1] or 'f32' in z[1]) for z in subterms(x))
                     if not leaves_style and isfloat and bad is None:
                         bad = cond
         ctx.check(bad is None, R, key + '|%s at bb-order %d not conditioned on the turn' % (d.split('::')[-1], n), call_line(b, bi), 'guards: width test, Option states, subpath flags',
